@@ -93,6 +93,129 @@ pub trait DSet: Sized {
 
 }
 
+// =====================================================================================================
+// trait DSym of src/dsyms.rs: a D-set with branching numbers v; the laws tie the degree m to v and to the orbit length
+// =====================================================================================================
+pub trait DSym: DSet {
+    spec fn sv(&self, i: int, j: int, d: int) -> Option<usize>;
+
+    // C02 "v is constant on (i,j)-orbits" (adjacent indices)
+    proof fn lemma_v_orbit(&self)
+        requires self.wf()
+        ensures
+            forall|i: int, d: int| 0 <= i < self.sdim() && (#[trigger] self.sop(i, d)).is_some() ==>
+                self.sv(i, i + 1, self.sop(i, d).unwrap() as int) == self.sv(i, i + 1, d),
+            forall|i: int, d: int| 0 <= i < self.sdim() && (#[trigger] self.sop(i + 1, d)).is_some() ==>
+                self.sv(i, i + 1, self.sop(i + 1, d).unwrap() as int) == self.sv(i, i + 1, d);
+
+    // C02 "m = r * v" with r the length of the orbit of d under (operation i, then operation i+1), whatever that length is
+    proof fn lemma_m_rv(&self, i: int, d: usize, n: nat)
+        requires self.wf(), 0 <= i < self.sdim(), 1 <= d <= self.ssize(), ret_ij(self, i, i + 1, d, n)
+        ensures self.sv(i, i + 1, d as int).is_some(), n * self.sv(i, i + 1, d as int).unwrap() <= usize::MAX,
+            self.sm(i, i + 1, d as int) == Some((n * self.sv(i, i + 1, d as int).unwrap()) as usize);
+
+    fn v(&self, i: usize, j: usize, d: usize) -> (r: Option<usize>) requires self.wf() ensures r == self.sv(i as int, j as int, d as int);
+}
+
+// n is the least positive number of (operation i, then operation j) steps that lead from d back to d
+pub open spec fn ret_ij<S: DSet>(ds: &S, i: int, j: int, d: usize, n: nat) -> bool {
+    n >= 1 && iter_ij(ds, i, j, d, n) == Some(d) && forall|k: nat| 0 < k < n ==> #[trigger] iter_ij(ds, i, j, d, k) != Some(d)
+}
+
+// two D-sets with the same operations have the same orbits
+pub open spec fn same_ops<A: DSet, B: DSet>(a: &A, b: &B) -> bool {
+    forall|i: int, x: int| #[trigger] a.sop(i, x) == b.sop(i, x)
+}
+proof fn lemma_iter_ij_same_ops<A: DSet, B: DSet>(a: &A, b: &B, i: int, j: int, d: usize, k: nat)
+    requires same_ops(a, b)
+    ensures iter_ij(a, i, j, d, k) == iter_ij(b, i, j, d, k)
+    decreases k
+{
+    if k > 0 {
+        lemma_iter_ij_same_ops(a, b, i, j, d, (k - 1) as nat);
+        let x = iter_ij(a, i, j, d, (k - 1) as nat);
+        if x.is_some() {
+            let e = x.unwrap();
+            assert(a.sop(i, e as int) == b.sop(i, e as int));
+            if a.sop(i, e as int).is_some() { let ei = a.sop(i, e as int).unwrap(); assert(a.sop(j, ei as int) == b.sop(j, ei as int)); }
+        }
+    }
+}
+proof fn lemma_ret_ij_same_ops<A: DSet, B: DSet>(a: &A, b: &B, i: int, j: int, d: usize, n: nat)
+    requires same_ops(a, b), ret_ij(a, i, j, d, n)
+    ensures ret_ij(b, i, j, d, n)
+{
+    lemma_iter_ij_same_ops(a, b, i, j, d, n);
+    assert forall|k: nat| 0 < k < n implies #[trigger] iter_ij(b, i, j, d, k) != Some(d) by { lemma_iter_ij_same_ops(a, b, i, j, d, k); }
+}
+
+// the abstract iteration, on a symbol's own table
+proof fn lemma_iter_ij_bridge(dset: &SimpleDSet, i: int, d: usize, k: nat)
+    requires dset.inv(), 0 <= i < dset.dim, 1 <= d <= dset.size
+    ensures iter_ij(dset, i, i + 1, d, k) == Some(iter(dset, i, d as int, k) as usize), 1 <= iter(dset, i, d as int, k) <= dset.size
+    decreases k
+{
+    dset.lemma_inv_tbl();
+    if k > 0 {
+        lemma_iter_ij_bridge(dset, i, d, (k - 1) as nat);
+        let y = iter(dset, i, d as int, (k - 1) as nat);
+        assert(1 <= dset.t(i, y) <= dset.size);
+        assert(1 <= dset.t(i + 1, dset.t(i, y)) <= dset.size);
+    }
+}
+
+proof fn lemma_sym_ret_ij(dset: &SimpleDSet, oi: Seq<Vec<usize>>, rs: Seq<usize>, vs: Seq<usize>, i: int, d: usize)
+    requires sym_ok(dset, oi, rs, vs), 0 <= i < dset.dim, 1 <= d <= dset.size
+    ensures ret_ij(dset, i, i + 1, d, rs[oix(oi, i, d as int)] as nat),
+        forall|n: nat| #[trigger] ret_ij(dset, i, i + 1, d, n) ==> n == rs[oix(oi, i, d as int)],
+{
+    reveal(ret_all);
+    reveal(ret_at);
+    assert(ret_all(dset, i, oi[i]@, rs));
+    let m = rs[oix(oi, i, d as int)] as nat;
+    let p = inv2_of(dset, i);
+    assert(p.ret(d as int, m));
+    assert forall|k: nat| true implies #[trigger] iter_ij(dset, i, i + 1, d, k) == Some(p.iter(d as int, k) as usize) && 1 <= p.iter(d as int, k) <= dset.size by {
+        lemma_iter_ij_bridge(dset, i, d, k);
+        lemma_iter_bridge(dset, i, d as int, k);
+    }
+    assert(ret_ij(dset, i, i + 1, d, m));
+    assert forall|n: nat| #[trigger] ret_ij(dset, i, i + 1, d, n) implies n == m by {
+        if n < m { assert(iter_ij(dset, i, i + 1, d, n) == Some(p.iter(d as int, n) as usize)); assert(p.iter(d as int, n) != d as int); }
+        if m < n { assert(iter_ij(dset, i, i + 1, d, m) != Some(d)); }
+    }
+}
+
+proof fn lemma_sym_v_orbit(dset: &SimpleDSet, oi: Seq<Vec<usize>>, rs: Seq<usize>, vs: Seq<usize>)
+    requires sym_ok(dset, oi, rs, vs)
+    ensures
+        forall|i: int, d: int| 0 <= i < dset.dim && (#[trigger] dset.sop(i, d)).is_some() ==>
+            spec_v(dset, oi, vs, i, i + 1, dset.sop(i, d).unwrap() as int) == spec_v(dset, oi, vs, i, i + 1, d),
+        forall|i: int, d: int| 0 <= i < dset.dim && (#[trigger] dset.sop(i + 1, d)).is_some() ==>
+            spec_v(dset, oi, vs, i, i + 1, dset.sop(i + 1, d).unwrap() as int) == spec_v(dset, oi, vs, i, i + 1, d),
+{
+    dset.lemma_wf();
+    dset.lemma_inv_tbl();
+    assert forall|i: int, d: int| 0 <= i < dset.dim && (#[trigger] dset.sop(i, d)).is_some() implies
+            spec_v(dset, oi, vs, i, i + 1, dset.sop(i, d).unwrap() as int) == spec_v(dset, oi, vs, i, i + 1, d) by {
+        lemma_rvm_adjacent_constant_on_orbit(dset, oi, rs, vs, i, d);
+    }
+    assert forall|i: int, d: int| 0 <= i < dset.dim && (#[trigger] dset.sop(i + 1, d)).is_some() implies
+            spec_v(dset, oi, vs, i, i + 1, dset.sop(i + 1, d).unwrap() as int) == spec_v(dset, oi, vs, i, i + 1, d) by {
+        lemma_rvm_adjacent_constant_on_orbit(dset, oi, rs, vs, i, d);
+    }
+}
+
+// m = r * v for a symbol's tables, with r ANY n that is the least return time in the abstract sense
+proof fn lemma_sym_m_rv(dset: &SimpleDSet, oi: Seq<Vec<usize>>, rs: Seq<usize>, vs: Seq<usize>, i: int, d: usize, n: nat)
+    requires sym_ok(dset, oi, rs, vs), 0 <= i < dset.dim, 1 <= d <= dset.size, ret_ij(dset, i, i + 1, d, n)
+    ensures spec_v(dset, oi, vs, i, i + 1, d as int).is_some(), n * spec_v(dset, oi, vs, i, i + 1, d as int).unwrap() <= usize::MAX,
+        spec_m(dset, oi, rs, vs, i, i + 1, d as int) == Some((n * spec_v(dset, oi, vs, i, i + 1, d as int).unwrap()) as usize),
+{
+    lemma_sym_ret_ij(dset, oi, rs, vs, i, d);
+    lemma_oix_bound(dset, oi, rs, vs, i, d as int);
+}
+
 // ---- (i,j)-orbits of an abstract D-set, without reference to any enumeration: a function on chambers is an ORBIT FUNCTION
 // when it is constant along the operations i and j (wherever they are defined); two chambers lie on one (i,j)-orbit iff
 // no orbit function separates them (the indicator of an orbit is an orbit function)
@@ -1905,31 +2028,6 @@ impl PartialDSym {
     }
     //@ end
 
-    // `impl DSym for PartialDSym :: v` (inherent emission R15)
-    //@ begin src/dsyms.rs :: impl DSym for PartialDSym :: fn v | props=C01,C02,C04
-    //@ rw R16 /-> Option<usize>/-> (r: Option<usize>)/
-    fn v(&self, i: usize, j: usize, d: usize) -> (r: Option<usize>)
-        requires self.inv()
-        ensures r == spec_v(&self.dset, self.orbit_index@, self.orbit_vs@, i as int, j as int, d as int)
-    {
-        proof { self.dset.lemma_inv_tbl(); }
-        if i > self.dim() || j > self.dim() || d < 1 || d > self.size() {
-            None
-        } else if j == i {
-            Some(1)
-        } else if j == i + 1 {
-            proof { lemma_oix_bound(&self.dset, self.orbit_index@, self.orbit_rs@, self.orbit_vs@, i as int, d as int); }
-            Some(self.orbit_vs[self.orbit_index[i][d]])
-        } else if i == j + 1 {
-            proof { lemma_oix_bound(&self.dset, self.orbit_index@, self.orbit_rs@, self.orbit_vs@, j as int, d as int); }
-            Some(self.orbit_vs[self.orbit_index[j][d]])
-        } else if self.op(i, d) == self.op(j, d) {
-            Some(2)
-        } else {
-            Some(1)
-        }
-    }
-    //@ end
 
     // `impl From<SimpleDSet> for PartialDSym :: from` as a named constructor (R15)
     //@ begin src/dsyms.rs :: impl From<SimpleDSet> for PartialDSym :: fn from | props=C01,C02,C04
@@ -2027,6 +2125,40 @@ impl DSet for PartialDSym {
             if j < self.dset.dim && 1 <= d <= self.dset.size { lemma_oix_bound(&self.dset, self.orbit_index@, self.orbit_rs@, self.orbit_vs@, j as int, d as int); }
         }
         Some(self.r(i, j, d)? * self.v(i, j, d)?)
+    }
+    //@ end
+}
+
+impl DSym for PartialDSym {
+    open spec fn sv(&self, i: int, j: int, d: int) -> Option<usize> { spec_v(&self.dset, self.orbit_index@, self.orbit_vs@, i, j, d) }
+
+    proof fn lemma_v_orbit(&self) { lemma_sym_v_orbit(&self.dset, self.orbit_index@, self.orbit_rs@, self.orbit_vs@); }
+    proof fn lemma_m_rv(&self, i: int, d: usize, n: nat) {
+        lemma_ret_ij_same_ops(self, &self.dset, i, i + 1, d, n);
+        lemma_sym_m_rv(&self.dset, self.orbit_index@, self.orbit_rs@, self.orbit_vs@, i, d, n);
+    }
+
+    // `impl DSym for PartialDSym :: v` (the real trait impl)
+    //@ begin src/dsyms.rs :: impl DSym for PartialDSym :: fn v | props=C01,C02,C04
+    //@ rw R16 /-> Option<usize>/-> (r: Option<usize>)/
+    fn v(&self, i: usize, j: usize, d: usize) -> (r: Option<usize>)
+    {
+        proof { self.dset.lemma_inv_tbl(); assert(self.sv(i as int, j as int, d as int) == spec_v(&self.dset, self.orbit_index@, self.orbit_vs@, i as int, j as int, d as int)); }
+        if i > self.dim() || j > self.dim() || d < 1 || d > self.size() {
+            None
+        } else if j == i {
+            Some(1)
+        } else if j == i + 1 {
+            proof { lemma_oix_bound(&self.dset, self.orbit_index@, self.orbit_rs@, self.orbit_vs@, i as int, d as int); }
+            Some(self.orbit_vs[self.orbit_index[i][d]])
+        } else if i == j + 1 {
+            proof { lemma_oix_bound(&self.dset, self.orbit_index@, self.orbit_rs@, self.orbit_vs@, j as int, d as int); }
+            Some(self.orbit_vs[self.orbit_index[j][d]])
+        } else if self.op(i, d) == self.op(j, d) {
+            Some(2)
+        } else {
+            Some(1)
+        }
     }
     //@ end
 }
@@ -2248,31 +2380,6 @@ impl SimpleDSym {
     }
     //@ end
 
-    // `impl DSym for SimpleDSym :: v` (inherent emission R15)
-    //@ begin src/dsyms.rs :: impl DSym for SimpleDSym :: fn v | props=C01,C02,C04
-    //@ rw R16 /-> Option<usize>/-> (r: Option<usize>)/
-    fn v(&self, i: usize, j: usize, d: usize) -> (r: Option<usize>)
-        requires self.inv()
-        ensures r == spec_v(&self.dset, self.orbit_index@, self.orbit_vs@, i as int, j as int, d as int)
-    {
-        proof { self.dset.lemma_inv_tbl(); }
-        if i > self.dim() || j > self.dim() || d < 1 || d > self.size() {
-            None
-        } else if j == i {
-            Some(1)
-        } else if j == i + 1 {
-            proof { lemma_oix_bound(&self.dset, self.orbit_index@, self.orbit_rs@, self.orbit_vs@, i as int, d as int); }
-            Some(self.orbit_vs[self.orbit_index[i][d]])
-        } else if i == j + 1 {
-            proof { lemma_oix_bound(&self.dset, self.orbit_index@, self.orbit_rs@, self.orbit_vs@, j as int, d as int); }
-            Some(self.orbit_vs[self.orbit_index[j][d]])
-        } else if self.op(i, d) == self.op(j, d) {
-            Some(2)
-        } else {
-            Some(1)
-        }
-    }
-    //@ end
 }
 
 impl DSet for SimpleDSym {
@@ -2316,6 +2423,40 @@ impl DSet for SimpleDSym {
             if j < self.dset.dim && 1 <= d <= self.dset.size { lemma_oix_bound(&self.dset, self.orbit_index@, self.orbit_rs@, self.orbit_vs@, j as int, d as int); }
         }
         Some(self.r(i, j, d)? * self.v(i, j, d)?)
+    }
+    //@ end
+}
+
+impl DSym for SimpleDSym {
+    open spec fn sv(&self, i: int, j: int, d: int) -> Option<usize> { spec_v(&self.dset, self.orbit_index@, self.orbit_vs@, i, j, d) }
+
+    proof fn lemma_v_orbit(&self) { lemma_sym_v_orbit(&self.dset, self.orbit_index@, self.orbit_rs@, self.orbit_vs@); }
+    proof fn lemma_m_rv(&self, i: int, d: usize, n: nat) {
+        lemma_ret_ij_same_ops(self, &self.dset, i, i + 1, d, n);
+        lemma_sym_m_rv(&self.dset, self.orbit_index@, self.orbit_rs@, self.orbit_vs@, i, d, n);
+    }
+
+    // `impl DSym for SimpleDSym :: v` (the real trait impl)
+    //@ begin src/dsyms.rs :: impl DSym for SimpleDSym :: fn v | props=C01,C02,C04
+    //@ rw R16 /-> Option<usize>/-> (r: Option<usize>)/
+    fn v(&self, i: usize, j: usize, d: usize) -> (r: Option<usize>)
+    {
+        proof { self.dset.lemma_inv_tbl(); assert(self.sv(i as int, j as int, d as int) == spec_v(&self.dset, self.orbit_index@, self.orbit_vs@, i as int, j as int, d as int)); }
+        if i > self.dim() || j > self.dim() || d < 1 || d > self.size() {
+            None
+        } else if j == i {
+            Some(1)
+        } else if j == i + 1 {
+            proof { lemma_oix_bound(&self.dset, self.orbit_index@, self.orbit_rs@, self.orbit_vs@, i as int, d as int); }
+            Some(self.orbit_vs[self.orbit_index[i][d]])
+        } else if i == j + 1 {
+            proof { lemma_oix_bound(&self.dset, self.orbit_index@, self.orbit_rs@, self.orbit_vs@, j as int, d as int); }
+            Some(self.orbit_vs[self.orbit_index[j][d]])
+        } else if self.op(i, d) == self.op(j, d) {
+            Some(2)
+        } else {
+            Some(1)
+        }
     }
     //@ end
 }
@@ -2982,6 +3123,346 @@ pub fn build_sym_using_ms<F>(dset: PartialDSet, m: F) -> (res: PartialDSym)
 }
 //@ end
 
+// the length of an (i,i+1)-orbit cycle is at most the number of chambers
+proof fn lemma_rs_le_size(dset: &SimpleDSet, oi: Seq<Vec<usize>>, rs: Seq<usize>, vs: Seq<usize>, i: int, d: int)
+    requires sym_ok(dset, oi, rs, vs), 0 <= i < dset.dim, 1 <= d <= dset.size
+    ensures rs[oix(oi, i, d)] <= dset.size
+{
+    reveal(ret_all);
+    reveal(ret_at);
+    assert(ret_all(dset, i, oi[i]@, rs));
+    let n = rs[oix(oi, i, d)] as nat;
+    let p = inv2_of(dset, i);
+    assert(p.ret(d, n));
+    assert forall|k: nat| 0 < k <= (n - 1) as nat implies #[trigger] iter(dset, i, d, k) != d by { lemma_iter_bridge(dset, i, d, k); }
+    lemma_steps_bound(dset, i, d, (n - 1) as nat);
+}
+
+// `v` never prescribes a degree whose product with an orbit length could overflow (orbit lengths are at most `size`)
+pub open spec fn v_small<F: Fn(usize, usize) -> Option<usize>>(v: &F, dim: int, size: int) -> bool {
+    forall|i: usize, d: usize, x: usize| i < dim && 1 <= d <= size && #[trigger] v.ensures((i, d), Some(x)) ==> x * size <= usize::MAX
+}
+
+//@ begin src/derived.rs :: - :: fn build_sym_using_vs | props=C02,C04,C05
+//@ rw R16 /-> PartialDSym$/-> (res: PartialDSym)/
+//@ rw R15 /let mut dsym: PartialDSym = dset\.into\(\);/let mut dsym: PartialDSym = PartialDSym::from_partial_dset(dset);/
+//@ rw R14 /^([ \t]*)for d in (dsym\.orbit_reps_2d\(i, i \+ 1\))$/\1let __reps = \2;\n\1for d in it: __reps/
+//@ rw R11 /dsym\.orbit_reps_2d\(i, i \+ 1\)/orbit_reps_2d(&dsym, i, i + 1)/
+//@ rw R14 /^([ \t]*)for i in 0\.\.(dsym\.dim\(\))$/\1let __n = \2;\n\1for i in 0..__n/
+#[verifier::spinoff_prover]
+pub fn build_sym_using_vs<F>(dset: PartialDSet, v: F) -> (res: PartialDSym)
+    where F: Fn(usize, usize) -> Option<usize>
+    requires dset.inv(), dset.complete(),     // `dset.into()` asserts completeness
+        forall|i: usize, d: usize| i < dset.dim && 1 <= d <= dset.size ==> v.requires((i, d)),
+        v_small(&v, dset.dim as int, dset.size as int),
+    ensures res.inv(), res.dset.size == dset.size, res.dset.dim == dset.dim, res.dset.op@ == dset.op@,
+        // for every function vf describing the closure's results that is constant on (i,i+1)-orbits, the v-entry of the orbit
+        // of x is vf(i, x)
+        forall|vf: spec_fn(int, int) -> Option<usize>| #[trigger] m_hyp(&v, &res.dset, vf) ==>
+            degs_upto(res.dset.size as int, res.orbit_index@, res.orbit_rs@, res.orbit_vs@, vf, false, res.dset.dim as int),
+{
+    let ghost mc = v;
+    let mut dsym: PartialDSym = PartialDSym::from_partial_dset(dset);
+    let ghost ds0 = dsym.dset;
+    let ghost oi0 = dsym.orbit_index@;
+    let ghost rs0 = dsym.orbit_rs@;
+    let __n = dsym.dim();
+    for i in 0..__n
+        invariant dsym.inv(), dsym.dset.size == dset.size, dsym.dset.dim == dset.dim, dsym.dset.op@ == dset.op@, __n == dset.dim,
+            forall|i: usize, d: usize| i < dset.dim && 1 <= d <= dset.size ==> v.requires((i, d)),
+            v_small(&v, dset.dim as int, dset.size as int),
+            mc == v, dsym.dset == ds0, dsym.orbit_index@ == oi0, dsym.orbit_rs@ == rs0,
+            forall|mf: spec_fn(int, int) -> Option<usize>| #[trigger] m_hyp(&mc, &ds0, mf) ==>
+                degs_upto(ds0.size as int, oi0, rs0, dsym.orbit_vs@, mf, false, i as int),
+    {
+        let __reps = orbit_reps_2d(&dsym, i, i + 1);
+        let ghost reps0 = __reps@;
+        proof {
+            lemma_reps_cover_index(&dsym, i as int, reps0);
+            assert forall|mf: spec_fn(int, int) -> Option<usize>| #[trigger] m_hyp(&mc, &ds0, mf) implies
+                degs_listed(ds0.size as int, oi0, rs0, dsym.orbit_vs@, mf, false, i as int, reps0, 0) by { }
+            if reps0.len() == 0 { lemma_deg_close(&mc, &ds0, oi0, rs0, dsym.orbit_vs@, i as int, reps0, false); }
+        }
+        for d in it: __reps
+            invariant dsym.inv(), dsym.dset.size == dset.size, dsym.dset.dim == dset.dim, dsym.dset.op@ == dset.op@, i < dset.dim,
+                forall|i: usize, d: usize| i < dset.dim && 1 <= d <= dset.size ==> v.requires((i, d)),
+                v_small(&v, dset.dim as int, dset.size as int),
+                forall|k: int| 0 <= k < it.seq().len() ==> 1 <= #[trigger] it.seq()[k] <= dset.size,
+                mc == v, dsym.dset == ds0, dsym.orbit_index@ == oi0, dsym.orbit_rs@ == rs0, it.seq() == reps0,
+                all_listed(ds0.size as int, oi0, i as int, reps0),
+                forall|mf: spec_fn(int, int) -> Option<usize>| #[trigger] m_hyp(&mc, &ds0, mf) ==>
+                    degs_upto(ds0.size as int, oi0, rs0, dsym.orbit_vs@, mf, false, i as int)
+                    && degs_listed(ds0.size as int, oi0, rs0, dsym.orbit_vs@, mf, false, i as int, reps0, it.index() as int),
+                it.index() == it.seq().len() ==> (forall|mf: spec_fn(int, int) -> Option<usize>| #[trigger] m_hyp(&mc, &ds0, mf) ==>
+                    degs_upto(ds0.size as int, oi0, rs0, dsym.orbit_vs@, mf, false, i + 1)),
+        {
+            let ghost k = it.index() as int;
+            let ghost vs_b = dsym.orbit_vs@;
+            let ghost mut res_m: Option<Option<usize>> = None;
+            proof {
+                assert(1 <= it.seq()[it.index() as int] <= dset.size);
+                lemma_oix_bound(&dsym.dset, dsym.orbit_index@, dsym.orbit_rs@, dsym.orbit_vs@, i as int, d as int);
+                lemma_rs_le_size(&dsym.dset, dsym.orbit_index@, dsym.orbit_rs@, dsym.orbit_vs@, i as int, d as int);
+            }
+            if let Some(v) = v(i, d) {
+                proof {
+                    let r = dsym.orbit_rs@[oix(dsym.orbit_index@, i as int, d as int)];
+                    assert(mc.ensures((i, d), Some(v)));
+                    assert(v * dset.size <= usize::MAX);
+                    assert(r * v <= usize::MAX) by(nonlinear_arith) requires r <= dset.size, v * dset.size <= usize::MAX, r >= 0, v >= 0;
+                }
+                dsym.set_v(i, d, v);
+                proof {
+                    res_m = Some(Some(v));
+                    lemma_deg_step(&mc, &ds0, oi0, rs0, vs_b, dsym.orbit_vs@, i, reps0, k, d, Some(v), false);
+                }
+            }
+            proof {
+                if res_m.is_none() {
+                    assert(mc.ensures((i, d), None));
+                    lemma_deg_step(&mc, &ds0, oi0, rs0, vs_b, dsym.orbit_vs@, i, reps0, k, d, None, false);
+                }
+                if k + 1 == reps0.len() { lemma_deg_close(&mc, &ds0, oi0, rs0, dsym.orbit_vs@, i as int, reps0, false); }
+            }
+        }
+    }
+    dsym
+}
+//@ end
+
+// C02 conversions: a plain D-set with the same operations ...
+//@ begin src/derived.rs :: - :: fn as_dset | props=C02
+//@ rw R16 /-> PartialDSet$/-> (res: PartialDSet)/
+//@ rw R14 /^([ \t]*)build_set\(ds\.size\(\), ds\.dim\(\), \|i, d\| (.*)\)$/\1let __op = |i: usize, d: usize| -> (r: Option<usize>)\n\1{ \2 };\n\1let __r = build_set(ds.size(), ds.dim(), __op);\n\1__r/
+pub fn as_dset<T: DSet>(ds: &T) -> (res: PartialDSet)
+    requires ds.wf(), ds.ssize() * (ds.sdim() + 1) <= usize::MAX,
+    ensures res.inv(), res.size == ds.ssize(), res.dim == ds.sdim(),
+        forall|i: int, d: int| 0 <= i <= ds.sdim() && 1 <= d <= ds.ssize() ==> #[trigger] res.vop(i, d) == ds.sop(i, d),
+{
+    proof { ds.lemma_wf(); }
+    let __op = |i: usize, d: usize| -> (r: Option<usize>)
+        requires ds.wf()
+        ensures r == ds.sop(i as int, d as int)
+    { ds.op(i, d) };
+    proof {
+        assert(deterministic(__op, ds.ssize() as usize, ds.sdim() as usize));
+        assert(consistent(__op, ds.ssize() as usize, ds.sdim() as usize)) by {
+            assert forall|i: usize, d: usize, e: usize| #![trigger __op.ensures((i, d), Some(e))]
+                i <= ds.sdim() && 1 <= d <= ds.ssize() && __op.ensures((i, d), Some(e)) implies 1 <= e <= ds.ssize() by {
+                assert(ds.sop(i as int, d as int).is_some());
+            }
+            assert forall|i: usize, d: usize, e: usize, r: Option<usize>| #![trigger __op.ensures((i, d), Some(e)), __op.ensures((i, e), r)]
+                i <= ds.sdim() && 1 <= d <= ds.ssize() && __op.ensures((i, d), Some(e)) && __op.ensures((i, e), r) implies r == Some(d) by {
+                assert(ds.sop(i as int, d as int).is_some());
+            }
+            assert forall|i: usize, a: usize, b: usize, e: usize| #![trigger __op.ensures((i, a), Some(e)), __op.ensures((i, b), Some(e))]
+                i <= ds.sdim() && 1 <= a <= ds.ssize() && 1 <= b <= ds.ssize() && __op.ensures((i, a), Some(e)) && __op.ensures((i, b), Some(e)) implies a == b by {
+                assert(ds.sop(i as int, a as int).is_some());
+                assert(ds.sop(i as int, b as int).is_some());
+            }
+        }
+    }
+    let __r = build_set(ds.size(), ds.dim(), __op);
+    proof {
+        assert forall|i: int, d: int| 0 <= i <= ds.sdim() && 1 <= d <= ds.ssize() implies #[trigger] __r.vop(i, d) == ds.sop(i, d) by {
+            assert(__op.ensures((i as usize, d as usize), __r.vop(i as usize as int, d as usize as int)));
+        }
+    }
+    __r
+}
+//@ end
+
+// ... and a D-symbol with the same operations and all v = 1
+//@ begin src/derived.rs :: - :: fn as_dsym | props=C02
+//@ rw R16 /-> PartialDSym$/-> (res: PartialDSym)/
+//@ rw R14 /^([ \t]*)build_sym_using_vs\(as_dset\(ds\), \|_, _\| (.*)\)$/\1let __s = as_dset(ds);\n\1let __v = |_i: usize, _d: usize| -> (r: Option<usize>)\n\1{ \2 };\n\1let __r = build_sym_using_vs(__s, __v);\n\1__r/
+pub fn as_dsym<T: DSet>(ds: &T) -> (res: PartialDSym)
+    requires ds.wf(), base_complete(ds), ds.ssize() * (ds.sdim() + 1) <= usize::MAX,
+    ensures res.inv(), res.dset.size == ds.ssize(), res.dset.dim == ds.sdim(),
+        forall|i: int, d: int| 0 <= i <= ds.sdim() && 1 <= d <= ds.ssize() ==> #[trigger] res.dset.t(i, d) == bop(ds, i, d),
+        forall|i: int, d: int| 0 <= i < ds.sdim() && 1 <= d <= ds.ssize() ==> #[trigger] spec_v(&res.dset, res.orbit_index@, res.orbit_vs@, i, i + 1, d) == Some(1usize),
+{
+    proof { lemma_bop(ds); }
+    let __s = as_dset(ds);
+    proof {
+        assert forall|i: int, d: int| 0 <= i <= __s.dim && 1 <= d <= __s.size implies #[trigger] tbl(__s.op@, __s.dim as int, i, d) != 0 by {
+            assert(__s.vop(i, d) == ds.sop(i, d));
+            assert(ds.sop(i, d).is_some());
+        }
+        assert(__s.complete());
+    }
+    let ghost s0 = __s;
+    let __v = |_i: usize, _d: usize| -> (r: Option<usize>)
+        ensures r == Some(1usize)
+    { Some(1) };
+    let ghost vg = __v;
+    proof {
+        assert(v_small(&__v, __s.dim as int, __s.size as int)) by {
+            assert forall|i: usize, d: usize, x: usize| i < __s.dim && 1 <= d <= __s.size && #[trigger] __v.ensures((i, d), Some(x)) implies x * __s.size <= usize::MAX by { }
+        }
+    }
+    let __r = build_sym_using_vs(__s, __v);
+    proof {
+        let vf = |i: int, d: int| Some(1usize);
+        assert(m_hyp(&vg, &__r.dset, vf)) by {
+            assert forall|i: usize, d: usize, r: Option<usize>| i < __r.dset.dim && 1 <= d <= __r.dset.size && #[trigger] vg.ensures((i, d), r)
+                implies r == vf(i as int, d as int) by { }
+        }
+        assert(degs_upto(__r.dset.size as int, __r.orbit_index@, __r.orbit_rs@, __r.orbit_vs@, vf, false, __r.dset.dim as int));
+        assert forall|i: int, d: int| 0 <= i < ds.sdim() && 1 <= d <= ds.ssize() implies #[trigger] spec_v(&__r.dset, __r.orbit_index@, __r.orbit_vs@, i, i + 1, d) == Some(1usize) by {
+            assert(deg_at(__r.orbit_index@, __r.orbit_rs@, __r.orbit_vs@, vf, false, i, d));
+        }
+        assert forall|i: int, d: int| 0 <= i <= ds.sdim() && 1 <= d <= ds.ssize() implies #[trigger] __r.dset.t(i, d) == bop(ds, i, d) by {
+            assert(__r.dset.t(i, d) == s0.t(i, d));
+            assert(s0.vop(i, d) == ds.sop(i, d));
+            assert(ds.sop(i, d).is_some());
+        }
+    }
+    __r
+}
+//@ end
+
+// ---- as_partial_dsym: the same symbol in the PartialDSym representation ----
+// the branching numbers are small enough that r * v cannot overflow for any orbit length r <= size (degrees of real symbols are tiny)
+pub open spec fn v_fits<T: DSym>(ds: &T) -> bool {
+    forall|i: int, d: int| 0 <= i < ds.sdim() && 1 <= d <= ds.ssize() && (#[trigger] ds.sv(i, i + 1, d)).is_some() ==> ds.sv(i, i + 1, d).unwrap() * ds.ssize() <= usize::MAX
+}
+pub open spec fn base_v<T: DSym>(ds: &T) -> spec_fn(int, int) -> Option<usize> { |i: int, d: int| ds.sv(i, i + 1, d) }
+
+// a closure that answers like ds.op is a deterministic, consistent operation table
+proof fn lemma_op_closure<T: DSet, F: Fn(usize, usize) -> Option<usize>>(ds: &T, op: F)
+    requires ds.wf(),
+        forall|i: usize, d: usize, r: Option<usize>| #[trigger] op.ensures((i, d), r) ==> r == ds.sop(i as int, d as int),
+    ensures deterministic(op, ds.ssize() as usize, ds.sdim() as usize), consistent(op, ds.ssize() as usize, ds.sdim() as usize)
+{
+    ds.lemma_wf();
+    assert forall|i: usize, d: usize, e: usize| #![trigger op.ensures((i, d), Some(e))]
+        i <= ds.sdim() && 1 <= d <= ds.ssize() && op.ensures((i, d), Some(e)) implies 1 <= e <= ds.ssize() by {
+        assert(ds.sop(i as int, d as int).is_some());
+    }
+    assert forall|i: usize, d: usize, e: usize, r: Option<usize>| #![trigger op.ensures((i, d), Some(e)), op.ensures((i, e), r)]
+        i <= ds.sdim() && 1 <= d <= ds.ssize() && op.ensures((i, d), Some(e)) && op.ensures((i, e), r) implies r == Some(d) by {
+        assert(ds.sop(i as int, d as int).is_some());
+    }
+    assert forall|i: usize, a: usize, b: usize, e: usize| #![trigger op.ensures((i, a), Some(e)), op.ensures((i, b), Some(e))]
+        i <= ds.sdim() && 1 <= a <= ds.ssize() && 1 <= b <= ds.ssize() && op.ensures((i, a), Some(e)) && op.ensures((i, b), Some(e)) implies a == b by {
+        assert(ds.sop(i as int, a as int).is_some());
+        assert(ds.sop(i as int, b as int).is_some());
+    }
+}
+
+// same operations and same branching numbers give the same degrees (law m = r * v on both sides, equal orbit lengths)
+proof fn lemma_copy_degrees<T: DSym>(ds: &T, c: &PartialDSym)
+    requires ds.wf(), base_complete(ds), c.inv(), c.dset.size == ds.ssize(), c.dset.dim == ds.sdim(),
+        forall|i: int, d: int| 0 <= i <= ds.sdim() && 1 <= d <= ds.ssize() ==> #[trigger] c.dset.t(i, d) == bop(ds, i, d),
+        degs_upto(c.dset.size as int, c.orbit_index@, c.orbit_rs@, c.orbit_vs@, base_v(ds), false, c.dset.dim as int),
+    ensures covers(c, ds, 1), cover_degrees(c, ds)
+{
+    let sz = ds.ssize();
+    lemma_bop(ds);
+    ds.lemma_wf();
+    c.dset.lemma_inv_tbl();
+    assert forall|d: int| 1 <= d <= sz implies #[trigger] src_of(d, sz) == d by { vstd::arithmetic::div_mod::lemma_small_mod((d - 1) as nat, sz as nat); }
+    assert forall|i: int, d: int| 0 <= i <= ds.sdim() && 1 <= d <= 1 * sz implies ({
+        let e = #[trigger] c.dset.t(i, d);
+        1 <= e <= 1 * sz && src_of(e, sz) == bop(ds, i, src_of(d, sz))
+    }) by { assert(1 <= bop(ds, i, d) <= sz); }
+    assert(covers(c, ds, 1));
+    assert(same_ops(&c.dset, ds)) by {
+        assert forall|i: int, x: int| #[trigger] c.dset.sop(i, x) == ds.sop(i, x) by {
+            if 0 <= i <= ds.sdim() && 1 <= x <= sz {
+                assert(c.dset.t(i, x) == bop(ds, i, x));
+                assert(ds.sop(i, x).is_some());
+            } else {
+                if ds.sop(i, x).is_some() { }
+            }
+        }
+    }
+    assert forall|i: int, d: int| 0 <= i < ds.sdim() && 1 <= d <= c.dset.size implies #[trigger] deg_preserved(c, ds, i, d) by {
+        lemma_oix_bound(&c.dset, c.orbit_index@, c.orbit_rs@, c.orbit_vs@, i, d);
+        let kk = oix(c.orbit_index@, i, d);
+        let rc = c.orbit_rs@[kk];
+        lemma_sym_ret_ij(&c.dset, c.orbit_index@, c.orbit_rs@, c.orbit_vs@, i, d as usize);
+        lemma_ret_ij_same_ops(&c.dset, ds, i, i + 1, d as usize, rc as nat);
+        ds.lemma_m_rv(i, d as usize, rc as nat);
+        let x = ds.sv(i, i + 1, d).unwrap();
+        assert(deg_at(c.orbit_index@, c.orbit_rs@, c.orbit_vs@, base_v(ds), false, i, d));
+        assert(c.orbit_vs@[kk] == x);
+        let mb = ds.sm(i, i + 1, d);
+        assert(mb == Some((rc * x) as usize));
+        assert(c.sm(i, i + 1, d) == mb);
+        assert((rc * x) / (rc as int) == x) by(nonlinear_arith) requires rc >= 1, x >= 0;
+    }
+}
+
+//@ begin src/derived.rs :: - :: fn as_partial_dsym | props=C02,C04,C05
+//@ rw R16 /-> PartialDSym$/-> (res: PartialDSym)/
+//@ rw R14 /^([ \t]*)let op = \|i, d\| (.*);$/\1let op = |i: usize, d: usize| -> (r: Option<usize>)\n\1{ \2 };/
+//@ rw R14 /^([ \t]*)let v = \|i, d\| (.*);$/\1let v = |i: usize, d: usize| -> (r: Option<usize>)\n\1{ \2 };/
+//@ rw R14 /^([ \t]*)build_sym_using_vs\(build_set\(ds\.size\(\), ds\.dim\(\), op\), v\)$/\1let __set = build_set(ds.size(), ds.dim(), op);\n\1let __r = build_sym_using_vs(__set, v);\n\1__r/
+pub fn as_partial_dsym<T: DSym>(ds: &T) -> (res: PartialDSym)
+    requires ds.wf(), base_complete(ds), ds.ssize() * (ds.sdim() + 1) <= usize::MAX, v_fits(ds),
+    // C02/C05: a one-sheeted cover: same chambers, same operations, same branching numbers, same degrees
+    ensures covers(&res, ds, 1), cover_degrees(&res, ds),
+        forall|i: int, d: int| 0 <= i < ds.sdim() && 1 <= d <= ds.ssize() && ds.sv(i, i + 1, d).is_some() ==>
+            #[trigger] spec_v(&res.dset, res.orbit_index@, res.orbit_vs@, i, i + 1, d) == ds.sv(i, i + 1, d),
+{
+    proof { lemma_bop(ds); }
+    let op = |i: usize, d: usize| -> (r: Option<usize>)
+        requires ds.wf()
+        ensures r == ds.sop(i as int, d as int)
+    { ds.op(i, d) };
+    let v = |i: usize, d: usize| -> (r: Option<usize>)
+        requires ds.wf(), i < ds.sdim(), ds.sdim() < usize::MAX
+        ensures r == ds.sv(i as int, i + 1, d as int)
+    { ds.v(i, i + 1, d) };
+    let ghost vg = v;
+
+    proof { lemma_op_closure(ds, op); }
+    let __set = build_set(ds.size(), ds.dim(), op);
+    proof {
+        assert forall|i: int, d: int| 0 <= i <= __set.dim && 1 <= d <= __set.size implies #[trigger] tbl(__set.op@, __set.dim as int, i, d) != 0 by {
+            assert(op.ensures((i as usize, d as usize), __set.vop(i as usize as int, d as usize as int)));
+            assert(ds.sop(i, d).is_some());
+        }
+        assert(__set.complete());
+        assert(v_small(&v, __set.dim as int, __set.size as int)) by {
+            assert forall|i: usize, d: usize, x: usize| i < __set.dim && 1 <= d <= __set.size && #[trigger] v.ensures((i, d), Some(x)) implies x * __set.size <= usize::MAX by {
+                assert(ds.sv(i as int, i + 1, d as int).is_some());
+            }
+        }
+    }
+    let ghost s0 = __set;
+    let __r = build_sym_using_vs(__set, v);
+    proof {
+        assert forall|i: int, d: int| 0 <= i <= ds.sdim() && 1 <= d <= ds.ssize() implies #[trigger] __r.dset.t(i, d) == bop(ds, i, d) by {
+            assert(__r.dset.t(i, d) == s0.t(i, d));
+            assert(op.ensures((i as usize, d as usize), s0.vop(i as usize as int, d as usize as int)));
+            assert(ds.sop(i, d).is_some());
+        }
+        let vf = base_v(ds);
+        assert(m_hyp(&vg, &__r.dset, vf)) by {
+            assert forall|i: usize, d: usize, r: Option<usize>| i < __r.dset.dim && 1 <= d <= __r.dset.size && #[trigger] vg.ensures((i, d), r)
+                implies r == vf(i as int, d as int) by { }
+            ds.lemma_v_orbit();
+            assert forall|i: int, x: int| 0 <= i < __r.dset.dim && 1 <= x <= __r.dset.size implies
+                vf(i, __r.dset.t(i, x)) == #[trigger] vf(i, x) && vf(i, __r.dset.t(i + 1, x)) == vf(i, x) by {
+                assert(ds.sop(i, x).is_some() && ds.sop(i + 1, x).is_some());
+                assert(__r.dset.t(i, x) == bop(ds, i, x));
+                assert(__r.dset.t(i + 1, x) == bop(ds, i + 1, x));
+            }
+        }
+        assert(degs_upto(__r.dset.size as int, __r.orbit_index@, __r.orbit_rs@, __r.orbit_vs@, vf, false, __r.dset.dim as int));
+        lemma_copy_degrees(ds, &__r);
+        assert forall|i: int, d: int| 0 <= i < ds.sdim() && 1 <= d <= ds.ssize() && ds.sv(i, i + 1, d).is_some() implies
+            #[trigger] spec_v(&__r.dset, __r.orbit_index@, __r.orbit_vs@, i, i + 1, d) == ds.sv(i, i + 1, d) by {
+            assert(deg_at(__r.orbit_index@, __r.orbit_rs@, __r.orbit_vs@, vf, false, i, d));
+        }
+    }
+    __r
+}
+//@ end
+
 // ---- arithmetic of the sheet numbering: d = sz*k + c, 1 <= c <= sz ----
 pub open spec fn src_of(d: int, sz: int) -> int { (d - 1) % sz + 1 }
 pub open spec fn sheet_of(d: int, sz: int) -> int { (d - src_of(d, sz)) / sz }
@@ -3083,11 +3564,32 @@ pub open spec fn covers<T: DSet>(c: &PartialDSym, ds: &T, n: int) -> bool {
 // C05 "preserves every degree": the degree m(i,i+1) of a chamber d of the cover is r * (mb / r), where r is the length of the
 // (i,i+1)-orbit of d IN THE COVER and mb the degree of the chamber below d in the base -- hence equal to mb whenever r divides mb
 // (which it does for the covers built from coset tables of the fundamental group, whose relators include (s_i s_j)^m)
-pub open spec fn deg_preserved<T: DSet>(c: &PartialDSym, ds: &T, i: int, d: int) -> bool {
-    let mb = ds.sm(i, i + 1, src_of(d, ds.ssize()));
+pub open spec fn deg_proj(c: &PartialDSym, mb: Option<usize>, i: int, d: int) -> bool {
     let r = c.orbit_rs@[oix(c.orbit_index@, i, d)];
     mb.is_some() ==> c.sm(i, i + 1, d) == Some((r * (mb.unwrap() / r)) as usize)
         && (mb.unwrap() as int % r as int == 0 ==> c.sm(i, i + 1, d) == mb)
+}
+pub open spec fn deg_preserved<T: DSet>(c: &PartialDSym, ds: &T, i: int, d: int) -> bool {
+    deg_proj(c, ds.sm(i, i + 1, src_of(d, ds.ssize())), i, d)
+}
+// what build_sym_using_ms's postcondition says about one chamber, in terms of the symbol's degree function
+proof fn lemma_deg_proj(c: &PartialDSym, mf: spec_fn(int, int) -> Option<usize>, i: int, d: int)
+    requires c.inv(), 0 <= i < c.dset.dim, 1 <= d <= c.dset.size,
+        deg_at(c.orbit_index@, c.orbit_rs@, c.orbit_vs@, mf, true, i, d),
+    ensures deg_proj(c, mf(i, d), i, d)
+{
+    lemma_oix_bound(&c.dset, c.orbit_index@, c.orbit_rs@, c.orbit_vs@, i, d);
+    let mb = mf(i, d);
+    let kk = oix(c.orbit_index@, i, d);
+    let r = c.orbit_rs@[kk];
+    if mb.is_some() {
+        let mv = mb.unwrap();
+        assert(c.orbit_vs@[kk] == mv as int / r as int);
+        assert(r * (mv / r) <= mv) by(nonlinear_arith) requires r >= 1, mv >= 0;
+        if mv as int % r as int == 0 {
+            lemma_fundamental_div_mod(mv as int, r as int);
+        }
+    }
 }
 pub open spec fn cover_degrees<T: DSet>(c: &PartialDSym, ds: &T) -> bool {
     forall|i: int, d: int| 0 <= i < ds.sdim() && 1 <= d <= c.dset.size ==> #[trigger] deg_preserved(c, ds, i, d)
@@ -3141,18 +3643,7 @@ proof fn lemma_cover_degrees<T: DSet, F: Fn(usize, usize) -> Option<usize>>(ds: 
     assert(degs_upto(c.dset.size as int, c.orbit_index@, c.orbit_rs@, c.orbit_vs@, mf, true, c.dset.dim as int));
     assert forall|i: int, d: int| 0 <= i < ds.sdim() && 1 <= d <= c.dset.size implies #[trigger] deg_preserved(c, ds, i, d) by {
         assert(deg_at(c.orbit_index@, c.orbit_rs@, c.orbit_vs@, mf, true, i, d));
-        lemma_oix_bound(&c.dset, c.orbit_index@, c.orbit_rs@, c.orbit_vs@, i, d);
-        let mb = ds.sm(i, i + 1, src_of(d, sz));
-        let kk = oix(c.orbit_index@, i, d);
-        let r = c.orbit_rs@[kk];
-        if mb.is_some() {
-            let mv = mb.unwrap();
-            assert(c.orbit_vs@[kk] == mv as int / r as int);
-            assert(r * (mv / r) <= mv) by(nonlinear_arith) requires r >= 1, mv >= 0;
-            if mv as int % r as int == 0 {
-                lemma_fundamental_div_mod(mv as int, r as int);
-            }
-        }
+        lemma_deg_proj(c, mf, i, d);
     }
 }
 
@@ -3363,9 +3854,6 @@ impl Copy for Sign {}
 pub fn __is_oriented<T: DSet>(ds: &T) -> (r: bool) requires ds.wf() { unimplemented!() }
 #[verifier::external_body]
 pub fn __partial_orientation<T: DSet>(ds: &T) -> (r: Vec<Sign>) requires ds.wf() ensures r@.len() == ds.ssize() + 1 { unimplemented!() }
-// as_partial_dsym(ds) copies ds through build_set / build_sym_using_vs (the latter not under contract): ASSUMED to be a 1-sheeted cover
-#[verifier::external_body]
-pub fn __as_partial_dsym<T: DSet>(ds: &T) -> (r: PartialDSym) requires ds.wf(), base_complete(ds) ensures covers(&r, ds, 1), cover_degrees(&r, ds) { unimplemented!() }
 
 proof fn lemma_xor1(k: usize)
     ensures (k ^ 1) ^ 1 == k, k < 2 ==> (k ^ 1) < 2, k ^ 1 != k
@@ -3384,21 +3872,22 @@ proof fn lemma_xor1_inj(a: usize, b: usize)
 
 //@ begin src/derived.rs :: - :: fn oriented_cover | props=C05
 //@ rw R16 /-> PartialDSym$/-> (res: PartialDSym)/
-//@ rw R15 /<T: DSym>/<T: DSet>/
 //@ rw R5 /ds\.is_oriented\(\)/__is_oriented(ds)/
-//@ rw R5 /as_partial_dsym\(ds\)/__as_partial_dsym(ds)/
 //@ rw R5 /ds\.partial_orientation\(\)/__partial_orientation(ds)/
 //@ rw R14 /^([ \t]*)let sheet_map = \|k, i, d\| \{$/\1let sheet_map = |k: usize, i: usize, d: usize| -> (k2: usize)\n\1{/
-pub fn oriented_cover<T: DSet>(ds: &T) -> (res: PartialDSym)
-    requires ds.wf(), base_complete(ds),
+pub fn oriented_cover<T: DSym>(ds: &T) -> (res: PartialDSym)
+    requires ds.wf(), base_complete(ds), v_fits(ds),
         2 * ds.ssize() * (ds.sdim() + 1) <= usize::MAX, 2 * ds.ssize() < usize::MAX,
-    // C05: either way the result covers the base, with one sheet or two
+    // C05: either way the result covers the base, with one sheet or two, and has the degrees of the base
     ensures covers(&res, ds, 1) || covers(&res, ds, 2),
-        cover_degrees(&res, ds),     // in the one-sheeted branch by the assumed contract of as_partial_dsym, in the other one proved
+        cover_degrees(&res, ds),
 {
-    proof { lemma_bop(ds); }
+    proof {
+        lemma_bop(ds);
+        assert(ds.ssize() * (ds.sdim() + 1) <= 2 * ds.ssize() * (ds.sdim() + 1)) by(nonlinear_arith) requires ds.ssize() >= 0, ds.sdim() >= 0;
+    }
     if __is_oriented(ds) {
-        __as_partial_dsym(ds)
+        as_partial_dsym(ds)
     } else {
         let ori = __partial_orientation(ds);
         let sheet_map = |k: usize, i: usize, d: usize| -> (k2: usize)
@@ -4556,7 +5045,65 @@ pub open spec fn smallest_quotient<S: DSet>(ds: &S, f: Seq<usize>) -> bool {
 // C04: f maps ds onto res commuting with every operation, with the classes of a degree-respecting congruence as fibres; for a symbol
 // connected from chamber 1 it is the coarsest one, so that res is the smallest quotient of that kind
 pub open spec fn mi_post<S: DSet>(ds: &S, res: &PartialDSym, f: Seq<usize>) -> bool {
-    quotient_map(ds, res, f) && (connected_from_1(ds) ==> smallest_quotient(ds, f))
+    quotient_map(ds, res, f) && mi_degrees(ds, res, f) && (connected_from_1(ds) ==> smallest_quotient(ds, f))
+}
+// degrees of the image: m(i,i+1) of the image of d is r * (m_ds(d) / r) with r the orbit length in the image, hence m_ds(d) whenever
+// r divides it
+pub open spec fn mi_degrees<S: DSet>(ds: &S, res: &PartialDSym, f: Seq<usize>) -> bool {
+    forall|i: int, d: int| 0 <= i < ds.sdim() && 1 <= d <= ds.ssize() ==> #[trigger] deg_proj(res, ds.sm(i, i + 1, d), i, f[d] as int)
+}
+pub open spec fn mi_deg<S: DSet>(ds: &S, i2s: Seq<usize>) -> spec_fn(int, int) -> Option<usize> {
+    |i: int, k: int| ds.sm(i, i + 1, i2s[k] as int)
+}
+proof fn lemma_mi_degrees<S: DSet, F: Fn(usize, usize) -> Option<usize>>(ds: &S, c: &PartialDSym, m: &F, f: Seq<usize>, i2s: Seq<usize>)
+    requires ds.wf(), base_complete(ds), c.inv(), quotient_map(ds, c, f),
+        forall|k: int| 1 <= k <= c.dset.size ==> 1 <= #[trigger] i2s[k] <= ds.ssize() && f[i2s[k] as int] == k,
+        m_obeys(m, mi_deg(ds, i2s), c.dset.dim as int, c.dset.size as int),
+        forall|mf: spec_fn(int, int) -> Option<usize>| #[trigger] m_hyp(m, &c.dset, mf) ==>
+            degs_upto(c.dset.size as int, c.orbit_index@, c.orbit_rs@, c.orbit_vs@, mf, true, c.dset.dim as int),
+    ensures mi_degrees(ds, c, f)
+{
+    let mf = mi_deg(ds, i2s);
+    lemma_bop(ds);
+    ds.lemma_m_orbit();
+    assert(m_class(&c.dset, mf)) by {
+        assert forall|i: int, k: int| 0 <= i < c.dset.dim && 1 <= k <= c.dset.size implies
+            mf(i, c.dset.t(i, k)) == #[trigger] mf(i, k) && mf(i, c.dset.t(i + 1, k)) == mf(i, k) by {
+            let x = i2s[k] as int;
+            assert(f[x] == k);
+            assert(ds.sop(i, x).is_some() && ds.sop(i + 1, x).is_some());
+            let x1 = bop(ds, i, x);
+            let k1 = c.dset.t(i, k);
+            assert(c.dset.t(i, f[x] as int) == f[x1]);
+            let y1 = i2s[k1] as int;
+            assert(1 <= f[x1] <= c.dset.size);
+            assert(f[y1] == f[x1]);
+            assert(rng(ds, y1 as usize) && rng(ds, x1 as usize));
+            assert(deg_eq(ds, y1 as usize, x1 as usize));
+            assert(ds.sm(i, i + 1, y1) == ds.sm(i, i + 1, x1));
+            let x2 = bop(ds, i + 1, x);
+            let k2 = c.dset.t(i + 1, k);
+            assert(c.dset.t(i + 1, f[x] as int) == f[x2]);
+            let y2 = i2s[k2] as int;
+            assert(1 <= f[x2] <= c.dset.size);
+            assert(f[y2] == f[x2]);
+            assert(rng(ds, y2 as usize) && rng(ds, x2 as usize));
+            assert(deg_eq(ds, y2 as usize, x2 as usize));
+            assert(ds.sm(i, i + 1, y2) == ds.sm(i, i + 1, x2));
+        }
+    }
+    assert(m_hyp(m, &c.dset, mf));
+    assert(degs_upto(c.dset.size as int, c.orbit_index@, c.orbit_rs@, c.orbit_vs@, mf, true, c.dset.dim as int));
+    assert forall|i: int, d: int| 0 <= i < ds.sdim() && 1 <= d <= ds.ssize() implies #[trigger] deg_proj(c, ds.sm(i, i + 1, d), i, f[d] as int) by {
+        let k = f[d] as int;
+        assert(1 <= k <= c.dset.size);
+        assert(deg_at(c.orbit_index@, c.orbit_rs@, c.orbit_vs@, mf, true, i, k));
+        lemma_deg_proj(c, mf, i, k);
+        let y = i2s[k] as int;
+        assert(f[y] == f[d]);
+        assert(rng(ds, y as usize) && rng(ds, d as usize));
+        assert(deg_eq(ds, y as usize, d as usize));
+    }
 }
 // the numbering loop of minimal_image: classes are numbered 1, 2, ... in the order of their first members
 pub open spec fn mi_numbering<S: DSet>(ds: &S, p: &Partition, s2i: Seq<usize>, i2s: Seq<usize>, next: int, upto: int) -> bool {
@@ -4619,22 +5166,21 @@ proof fn lemma_mi_commutes<S: DSet>(ds: &S, p: &Partition, f: Seq<usize>, i2s: S
 }
 
 //@ begin src/derived.rs :: - :: fn minimal_image | props=C04
-//@ rw R15 /<T: DSym>/<T: DSet>/
 //@ rw R16 /-> PartialDSym$/-> (res: PartialDSym)/
 //@ rw R11 /ds\.is_minimal\(\)/is_minimal(ds)/
-//@ rw R5+R14 /^([ \t]*)as_partial_dsym\(ds\)$/\1let __c = __as_partial_dsym(ds);\n\1__c/
+//@ rw R14 /^([ \t]*)as_partial_dsym\(ds\)$/\1let __c = as_partial_dsym(ds);\n\1__c/
 //@ rw R5+R14 /^([ \t]*)let p = \(2\.\.=ds\.size\(\)\)\n[ \t]*\.fold\(Partition::new\(\), \|p, d\| ds\.fold\(&p, 1, d\)\.unwrap_or\(p\)\);/\1let __init = Partition::new();\n\1let p = __fold_partitions::<T, _>(Ghost(ds), 2, ds.size(), __init, |p: Partition, d: usize| -> (q: Partition)\n\1{\n\1    let __f = fold(ds, &p, 1, d);\n\1    __f.unwrap_or(p)\n\1});/
 //@ rw R12 /let mut next = 1;/let mut next: usize = 1;/
 //@ rw R10 /for d in 1\.\.=ds\.size\(\)$/for d in 1..(ds.size()) + 1/
-//@ rw R14 /^([ \t]*)build_sym_using_ms\(\n[ \t]*build_set\(\n[ \t]*next - 1,\n[ \t]*ds\.dim\(\),\n[ \t]*\|i, d\| ds\.op\(i, img2src\[d\]\)\.map\(\|e\| src2img\[e\]\)\n[ \t]*\),\n[ \t]*\|i, d\| (.*)\n[ \t]*\)$/\1let __op = |i: usize, d: usize| -> (r: Option<usize>)\n\1{\n\1    ds.op(i, img2src[d]).map(|e: usize| -> (x: usize)\n\1    { src2img[e] })\n\1};\n\1let __set = build_set(next - 1, ds.dim(), __op);\n\1let __r = build_sym_using_ms(__set, |i: usize, d: usize| -> (mm: Option<usize>)\n\1{ \2 });\n\1__r/
+//@ rw R14 /^([ \t]*)build_sym_using_ms\(\n[ \t]*build_set\(\n[ \t]*next - 1,\n[ \t]*ds\.dim\(\),\n[ \t]*\|i, d\| ds\.op\(i, img2src\[d\]\)\.map\(\|e\| src2img\[e\]\)\n[ \t]*\),\n[ \t]*\|i, d\| (.*)\n[ \t]*\)$/\1let __op = |i: usize, d: usize| -> (r: Option<usize>)\n\1{\n\1    ds.op(i, img2src[d]).map(|e: usize| -> (x: usize)\n\1    { src2img[e] })\n\1};\n\1let __set = build_set(next - 1, ds.dim(), __op);\n\1let __m = |i: usize, d: usize| -> (mm: Option<usize>)\n\1{ \2 };\n\1let __r = build_sym_using_ms(__set, __m);\n\1__r/
 #[verifier::spinoff_prover]
-pub fn minimal_image<T: DSet>(ds: &T) -> (res: PartialDSym)
-    requires ds.wf(), base_complete(ds), ds.ssize() * (ds.sdim() + 1) <= usize::MAX,
+pub fn minimal_image<T: DSym>(ds: &T) -> (res: PartialDSym)
+    requires ds.wf(), base_complete(ds), ds.ssize() * (ds.sdim() + 1) <= usize::MAX, v_fits(ds),
     ensures res.inv(), exists|f: Seq<usize>| mi_post(ds, &res, f),
 {
     proof { ds.lemma_wf(); lemma_bop(ds); }
     if is_minimal(ds) {
-        let __c = __as_partial_dsym(ds);
+        let __c = as_partial_dsym(ds);
         proof {
             // a one-sheeted cover: the identity is the quotient map
             let f = Seq::new((ds.ssize() + 1) as nat, |d: int| d as usize);
@@ -4646,6 +5192,9 @@ pub fn minimal_image<T: DSet>(ds: &T) -> (res: PartialDSym)
             }
             assert forall|k: int| #[trigger] is_image(&__c, k) implies exists|d: int| 1 <= d <= ds.ssize() && #[trigger] f[d] == k by { assert(f[k] == k); }
             assert(quotient_map(ds, &__c, f));
+            assert forall|i: int, d: int| 0 <= i < ds.sdim() && 1 <= d <= ds.ssize() implies #[trigger] deg_proj(&__c, ds.sm(i, i + 1, d), i, f[d] as int) by {
+                assert(deg_preserved(&__c, ds, i, d));
+            }
             if connected_from_1(ds) {
                 assert(only_trivial_congruence(ds));
                 assert forall|q: spec_fn(usize) -> usize, x: usize, y: usize| #![trigger dr(ds, q), same_r(q, x, y)] dr(ds, q) && rng(ds, x) && rng(ds, y) && same_r(q, x, y) implies f[x as int] == f[y as int] by { }
@@ -4778,9 +5327,12 @@ pub fn minimal_image<T: DSet>(ds: &T) -> (res: PartialDSym)
             }
             assert(__set.complete());
         }
-        let __r = build_sym_using_ms(__set, |i: usize, d: usize| -> (mm: Option<usize>)
+        let __m = |i: usize, d: usize| -> (mm: Option<usize>)
             requires i < ds.sdim(), 1 <= d <= nn, ds.wf(), mi_numbering(ds, &p, src2img@, img2src@, nn + 1, ds.ssize() + 1),
-        { ds.m(i, i + 1, img2src[d]) });
+            ensures mm == ds.sm(i as int, i + 1, img2src@[d as int] as int)
+        { ds.m(i, i + 1, img2src[d]) };
+        let ghost mg = __m;
+        let __r = build_sym_using_ms(__set, __m);
         proof {
             let i2s = img2src@;
             assert forall|i: int, d: int| 0 <= i <= ds.sdim() && 1 <= d <= ds.ssize() implies #[trigger] __r.dset.t(i, f[d] as int) == f[bop(ds, i, d)] by {
@@ -4796,6 +5348,11 @@ pub fn minimal_image<T: DSet>(ds: &T) -> (res: PartialDSym)
                 assert(same_r(repf(&p), x, y));
             }
             assert(quotient_map(ds, &__r, f));
+            assert(m_obeys(&mg, mi_deg(ds, i2s), __r.dset.dim as int, __r.dset.size as int)) by {
+                assert forall|i: usize, d: usize, r: Option<usize>| i < __r.dset.dim && 1 <= d <= __r.dset.size && #[trigger] mg.ensures((i, d), r)
+                    implies r == mi_deg(ds, i2s)(i as int, d as int) by { }
+            }
+            lemma_mi_degrees(ds, &__r, &mg, f, i2s);
             if connected_from_1(ds) {
                 lemma_coarsest(ds, repf(&p));
                 assert forall|q: spec_fn(usize) -> usize, x: usize, y: usize| #![trigger dr(ds, q), same_r(q, x, y)] dr(ds, q) && rng(ds, x) && rng(ds, y) && same_r(q, x, y) implies f[x as int] == f[y as int] by {
@@ -4840,8 +5397,8 @@ fn canary_default_r_contract<S: DSet>(ds: &S)
     let x = r(ds, 0, 1, 1);
 }
 
-fn canary_minimal_image_contract<S: DSet>(ds: &S)
-    requires ds.wf(), base_complete(ds), connected_from_1(ds), ds.ssize() * (ds.sdim() + 1) <= usize::MAX
+fn canary_minimal_image_contract<S: DSym>(ds: &S)
+    requires ds.wf(), base_complete(ds), connected_from_1(ds), ds.ssize() * (ds.sdim() + 1) <= usize::MAX, v_fits(ds)
     ensures false
 {
     let r = minimal_image(ds);
@@ -4875,8 +5432,8 @@ fn canary_from_str_contract(s: &str)
     let r = PartialDSym::from_str(s);
 }
 
-fn canary_cover_contract<T: DSet>(ds: &T)
-    requires ds.wf(), base_complete(ds), 2 * ds.ssize() * (ds.sdim() + 1) <= usize::MAX, 2 * ds.ssize() < usize::MAX,
+fn canary_cover_contract<T: DSym>(ds: &T)
+    requires ds.wf(), base_complete(ds), v_fits(ds), 2 * ds.ssize() * (ds.sdim() + 1) <= usize::MAX, 2 * ds.ssize() < usize::MAX,
     ensures false
 {
     let r = oriented_cover(ds);
